@@ -8,12 +8,22 @@ import (
 
 func init() {
 	harnessAPI = map[string]intrinsicFn{
-		"nondetBool":     hNondetBool,
-		"nondetU8":       func(c *Ctx, st *State, fn *ssa.Function, a []Value) (*State, Value) { return st, c.nondetScalar(a[0], "u8", 8) },
-		"nondetU32":      func(c *Ctx, st *State, fn *ssa.Function, a []Value) (*State, Value) { return st, c.nondetScalar(a[0], "u32", 32) },
-		"nondetU64":      func(c *Ctx, st *State, fn *ssa.Function, a []Value) (*State, Value) { return st, c.nondetScalar(a[0], "u64", 64) },
-		"nondetI64":      func(c *Ctx, st *State, fn *ssa.Function, a []Value) (*State, Value) { return st, c.nondetScalar(a[0], "i64", 64) },
-		"nondetInt":      func(c *Ctx, st *State, fn *ssa.Function, a []Value) (*State, Value) { return st, c.nondetScalar(a[0], "int", 64) },
+		"nondetBool": hNondetBool,
+		"nondetU8": func(c *Ctx, st *State, fn *ssa.Function, a []Value) (*State, Value) {
+			return st, c.nondetScalar(a[0], "u8", 8)
+		},
+		"nondetU32": func(c *Ctx, st *State, fn *ssa.Function, a []Value) (*State, Value) {
+			return st, c.nondetScalar(a[0], "u32", 32)
+		},
+		"nondetU64": func(c *Ctx, st *State, fn *ssa.Function, a []Value) (*State, Value) {
+			return st, c.nondetScalar(a[0], "u64", 64)
+		},
+		"nondetI64": func(c *Ctx, st *State, fn *ssa.Function, a []Value) (*State, Value) {
+			return st, c.nondetScalar(a[0], "i64", 64)
+		},
+		"nondetInt": func(c *Ctx, st *State, fn *ssa.Function, a []Value) (*State, Value) {
+			return st, c.nondetScalar(a[0], "int", 64)
+		},
 		"nondetIntRange": hNondetIntRange,
 		"nondetLen":      hNondetLen,
 		"nondetChoice":   hNondetChoice,
